@@ -1,8 +1,130 @@
-(** C10 — proofs (grown incrementally). *)
-From Coq Require Import List NArith ZArith Bool Lia String.
+(** C10 — proofs, part 1: GML node labels (NXToGML._charge_to_string / GMLToNX._extract_element_and_charge). *)
+From Coq Require Import List NArith ZArith Bool Lia String Decimal DecimalN DecimalPos.
 From SK Require Import lib.Tok lib.LGraph lib.StrJoin model.C10_Model.
 Import ListNotations.
 Local Open Scope Z_scope.
 
-Lemma label_example : extract_element_and_charge (s2l "Fe"%string ++ charge_to_string 3) = (s2l "Fe"%string, 3).
-Proof. vm_compute. reflexivity. Qed.
+(** ** decimal printing / parsing *)
+Lemma codes_uint_codes d : codes_uint (uint_codes d) = d.
+Proof. induction d; simpl; unfold digit_cons; simpl; rewrite ?IHd; reflexivity. Qed.
+
+Lemma uint_codes_digits d : Forall (fun c => is_digit c = true) (uint_codes d).
+Proof. induction d; simpl; constructor; auto. Qed.
+
+Lemma N_of_dec_of_N n : N_of_dec (dec_of_N n) = n.
+Proof. unfold N_of_dec, dec_of_N. rewrite codes_uint_codes. apply DecimalN.Unsigned.of_to. Qed.
+
+Lemma dec_of_N_nonnil n : dec_of_N n <> [].
+Proof.
+  unfold dec_of_N. destruct n as [|p]; simpl; [discriminate|].
+  pose proof (DecimalPos.Unsigned.to_uint_nonnil p) as H.
+  destruct (Pos.to_uint p); simpl; try discriminate. congruence.
+Qed.
+
+(** ** spans *)
+Lemma span_app p a b :
+  Forall (fun c => p c = true) a -> (match b with [] => True | c :: _ => p c = false end) ->
+  span p (a ++ b) = (a, b).
+Proof.
+  induction 1 as [|c a Hc Ha IH]; intros Hb; simpl.
+  - destruct b as [|c r]; simpl; [reflexivity|]. rewrite Hb. reflexivity.
+  - rewrite Hc, IH by exact Hb. reflexivity.
+Qed.
+
+Lemma digit_not_elem c : is_digit c = true -> is_elem_char c = false.
+Proof.
+  unfold is_digit, is_elem_char. intros H. apply andb_true_iff in H as [H1 H2].
+  apply N.leb_le in H1, H2.
+  destruct (N.leb_spec 65 c); [lia|]. destruct (N.leb_spec 97 c); [lia|]. simpl.
+  destruct (N.eqb_spec c 42); [lia|]. reflexivity.
+Qed.
+
+Definition elem_str (s : str) : Prop := s <> [] /\ Forall (fun c => is_elem_char c = true) s.
+
+(** the string written for a charge: nothing, or digits (at least one when |c| >= 2) then a sign *)
+Lemma charge_to_string_shape c :
+  (c = 0 /\ charge_to_string c = []) \/
+  (c = 1 /\ charge_to_string c = [c_plus]) \/
+  (c = -1 /\ charge_to_string c = [c_minus]) \/
+  (1 < c /\ charge_to_string c = dec_of_N (Z.to_N c) ++ [c_plus]) \/
+  (c < -1 /\ charge_to_string c = dec_of_N (Z.to_N (- c)) ++ [c_minus]).
+Proof.
+  unfold charge_to_string.
+  destruct (Z.ltb_spec 0 c).
+  - destruct (Z.eqb_spec c 1); [right; left; auto|]. right; right; right; left. split; [lia|reflexivity].
+  - destruct (Z.ltb_spec c 0).
+    + destruct (Z.eqb_spec c (-1)); [right; right; left; auto|]. right; right; right; right. split; [lia|reflexivity].
+    + left. split; [lia|reflexivity].
+Qed.
+
+Lemma extract_after_elem (el : str) (rest : str) :
+  elem_str el -> (match rest with [] => True | c :: _ => is_elem_char c = false end) ->
+  extract_element_and_charge (el ++ rest) =
+  let '(d, r2) := span is_digit rest in
+  let '(sg, r3) := match r2 with
+                   | c :: r => if N.eqb c c_plus || N.eqb c c_minus then (Some c, r) else (None, r2)
+                   | [] => (None, [])
+                   end in
+  if at_end r3 then
+    (el, match sg with
+         | None => 0
+         | Some c => let v := match d with [] => 1 | _ => Z.of_N (N_of_dec d) end in
+                     if N.eqb c c_plus then v else - v
+         end)
+  else (s_X, 0).
+Proof.
+  intros [Hne Hall] Hrest. unfold extract_element_and_charge.
+  rewrite (span_app _ _ _ Hall Hrest). destruct el; [congruence|]. reflexivity.
+Qed.
+
+(** C10_label_roundtrip *)
+Theorem label_roundtrip (el : str) (c : Z) :
+  elem_str el -> extract_element_and_charge (el ++ charge_to_string c) = (el, c).
+Proof.
+  intros Hel.
+  destruct (charge_to_string_shape c) as [[-> E]|[[-> E]|[[-> E]|[[Hc E]|[Hc E]]]]]; rewrite E.
+  - rewrite extract_after_elem by (auto; exact I). reflexivity.
+  - rewrite extract_after_elem by (auto; reflexivity). reflexivity.
+  - rewrite extract_after_elem by (auto; reflexivity). reflexivity.
+  - pose proof (dec_of_N_nonnil (Z.to_N c)) as Hnn.
+    pose proof (uint_codes_digits (N.to_uint (Z.to_N c))) as Hd. fold (dec_of_N (Z.to_N c)) in Hd.
+    rewrite extract_after_elem; auto.
+    + rewrite (span_app is_digit _ [c_plus] Hd) by reflexivity. simpl.
+      destruct (dec_of_N (Z.to_N c)) eqn:Ed; [congruence|]. rewrite <- Ed, N_of_dec_of_N.
+      f_equal. lia.
+    + destruct (dec_of_N (Z.to_N c)) as [|d0 r] eqn:Ed; [congruence|]. simpl.
+      apply digit_not_elem. inversion Hd; auto.
+  - pose proof (dec_of_N_nonnil (Z.to_N (- c))) as Hnn.
+    pose proof (uint_codes_digits (N.to_uint (Z.to_N (- c)))) as Hd. fold (dec_of_N (Z.to_N (- c))) in Hd.
+    rewrite extract_after_elem; auto.
+    + rewrite (span_app is_digit _ [c_minus] Hd) by reflexivity. simpl.
+      destruct (dec_of_N (Z.to_N (- c))) eqn:Ed; [congruence|]. rewrite <- Ed, N_of_dec_of_N.
+      f_equal. lia.
+    + destruct (dec_of_N (Z.to_N (- c))) as [|d0 r] eqn:Ed; [congruence|]. simpl.
+      apply digit_not_elem. inversion Hd; auto.
+Qed.
+
+(** the label of a node: element ++ charge string *)
+Corollary node_label_roundtrip (el : str) (c : Z) (ar : option bool) (hc am : option Z) (t : option (tg * tg)) :
+  elem_str el -> extract_element_and_charge (node_label (NA (Some el) ar hc (Some c) am t)) = (el, c).
+Proof. intros H. unfold node_label. simpl. apply label_roundtrip. exact H. Qed.
+
+(** non-vacuity *)
+Example label_example : extract_element_and_charge (s2l "Fe" ++ charge_to_string 3) = (s2l "Fe", 3).
+Proof. apply label_roundtrip. split; [discriminate|]. repeat constructor. Qed.
+Example label_example_neg : extract_element_and_charge (s2l "Uue" ++ charge_to_string (-12)) = (s2l "Uue", -12).
+Proof. apply label_roundtrip. split; [discriminate|]. repeat constructor. Qed.
+(** the hypothesis on the element matters: a symbol with a digit is not read back *)
+Example label_needs_elem : extract_element_and_charge (s2l "C1" ++ charge_to_string 1) <> (s2l "C1", 1).
+Proof. vm_compute. discriminate. Qed.
+
+(** labels of bond orders *)
+Lemma label_order_label o : In o [2; 3; 4; 6] -> label_order (order_label o) = o.
+Proof. simpl. intros [<-|[<-|[<-|[<-|[]]]]]; reflexivity. Qed.
+
+(** the statement exactly as in props/C10.v *)
+Lemma label_roundtrip_full :
+  forall (el : str) (c : Z),
+    el <> [] -> Forall (fun ch => is_elem_char ch = true) el ->
+    extract_element_and_charge (el ++ charge_to_string c) = (el, c).
+Proof. intros el c H1 H2. apply label_roundtrip. split; assumption. Qed.
